@@ -462,3 +462,88 @@ def c16_5(ctx: Ctx) -> RuleResult:
         i.rule = "C16.5"
     r.rule, r.title, r.floor = "C16.5", "plug-in resolution does not depend on earlier look-ups of a reused manager (the registry is its only state)", 3
     return r
+
+
+# --------------------------------------------------------------------- C16.6
+@rule(P)
+def c16_6(ctx: Ctx) -> RuleResult:
+    """User-supplied option dictionaries may hold stateful objects - an explicit `seed` given as a numpy Generator for a
+    population optimizer, a generator among the sampler options.  A run must not advance the object stored in the
+    configuration (a second run with the same configuration would start from a different state): wherever the options of
+    the optimizer or of a sampler leave the configuration towards a back-end, they pass through `copy.deepcopy`."""
+    res = RuleResult("C16.6", "FLOW", "configured option dictionaries reach the back-ends only as deep copies (stateful entries such as a Generator seed are not shared between runs)")
+    X = ctx.X
+
+    def shared(t: Term, fieldpath: tuple, inside: bool = False) -> list:
+        """occurrences of the configuration field in a value term that are not inside copy.deepcopy(...)"""
+        out = []
+        if not isinstance(t, tuple) or not t or not isinstance(t[0], str):
+            return out
+        if t[0] == "call" and t[1] == ("global", "copy.deepcopy"):
+            return out
+        if t[0] == "attr" and t[2] == fieldpath[-1] and (len(fieldpath) == 1 or (t[1][0] == "attr" and t[1][2] == fieldpath[-2])):
+            return [t]
+        if t[0] == "call" and t[1] == ("builtin", "isinstance"):
+            return out
+        if t[0] == "ifexp":
+            # the test only inspects the value
+            return shared(t[2], fieldpath) + shared(t[3], fieldpath)
+        for x in t[1:]:
+            if isinstance(x, tuple):
+                if x and isinstance(x[0], str):
+                    out += shared(x, fieldpath)
+                else:
+                    for y in x:
+                        if isinstance(y, tuple) and y and isinstance(y[0], str):
+                            out += shared(y, fieldpath)
+                        elif isinstance(y, tuple):
+                            for z in y:
+                                if isinstance(z, tuple) and z and isinstance(z[0], str):
+                                    out += shared(z, fieldpath)
+        return out
+
+    n = 0
+    # optimizer options: the option parsers of the SciPy plug-in (source of `options=` / `**options`)
+    from .c07 import anchors
+    from .c08 import option_parsers
+
+    A = anchors(ctx)
+    for f in option_parsers(ctx, A):
+        for r_ in nodes_in(f, ast.Return):
+            if r_.value is None:
+                continue
+            rt = X.force_inline(X.at(f, r_.value), f)
+            if not contains(rt, lambda s_: s_[0] == "attr" and s_[2] == "options"):
+                continue
+            n += 1
+            occ = shared(rt, ("optimizer", "options"))
+            ok = not occ
+            res.add(f, r_, "the options handed to SciPy contain the configured options only as a deep copy", ok,
+                    "" if ok else f"`{show(occ[0], 60)}` reaches the returned options without copy.deepcopy: a stateful entry (a Generator given as `seed`) is advanced by every run "
+                    "that uses this configuration - two runs with the same configuration differ",
+                    construct=f"{f.name}: optimizer options copied")
+    # sampler options: the constructor of every built-in sampler
+    from .c17 import sampler_impls
+
+    for c in sampler_impls(ctx):
+        init = c.methods.get("__init__")
+        if init is None:
+            continue
+        attr_names = sorted({t_.attr for m_ in c.methods.values() for a_ in nodes_in(m_, (ast.Assign, ast.AnnAssign))
+                             for t_ in (a_.targets if isinstance(a_, ast.Assign) else [a_.target])
+                             for t_ in ([t_] if isinstance(t_, ast.Attribute) else (t_.elts if isinstance(t_, ast.Tuple) else []))
+                             if isinstance(t_, ast.Attribute) and isinstance(t_.value, ast.Name) and t_.value.id == "self"})
+        for fld, vals in ((k, ctx.cg.field_values(c, k)) for k in attr_names if "option" in k):
+            for v in vals:
+                v2 = X.force_inline(v, init, effects=True)
+                if not contains(v2, lambda s_: s_[0] == "attr" and s_[2] == "options"):
+                    continue
+                n += 1
+                occ = shared(v2, ("options",))
+                ok = not occ
+                res.add(init, init.node, f"{c.name}.{fld}: the sampler's options are a deep copy of the configured options", ok,
+                        "" if ok else "the configured sampler options are stored without copy.deepcopy", construct=f"{c.name}.{fld}: sampler options copied")
+    if n == 0:
+        raise AnalysisError("no option dictionary flowing from the configuration to a back-end was found")
+    res.floor = 1
+    return res
